@@ -1,4 +1,5 @@
 """C17 — semi-singletons: per class, instances correspond one-to-one to argument keys."""
+import copy
 import json
 
 from ..engine import Leg, Prop
@@ -9,7 +10,9 @@ ARGS = [((), {}), ((1,), {}), ((2,), {}), ((-1,), {}), ((-2,), {}), ((0,), {}), 
         # keyword values that are == across types but have different JSON texts: distinct keys under the default key function
         ((), {"a": True}), ((), {"a": 1.0}),
         # a keyword value that is itself a dict, written in two insertion orders: equal arguments, one key
-        ((), {"o": {"p": 1, "q": 2}}), ((), {"o": {"q": 2, "p": 1}})]
+        ((), {"o": {"p": 1, "q": 2}}), ((), {"o": {"q": 2, "p": 1}}),
+        # a list-valued keyword argument in two orders: DIFFERENT arguments; some classes normalise (sort) it in place in __init__
+        ((), {"lst": [2, 1]}), ((), {"lst": [1, 2]})]
 CUSTOM = {"first": lambda args, kwargs: args[0] if args else None,
           "nargs": lambda args, kwargs: len(args) + len(kwargs)}
 
@@ -48,12 +51,17 @@ def build(case):
                     self._vlog = []
                     self._vid = counter["n"]
                     counter["n"] += 1
-                self._vlog.append((type(self), a, k))
+                self._vlog.append((type(self), copy.deepcopy(a), copy.deepcopy(k)))
+                if getattr(type(self), "_sorts", False):
+                    for val in k.values():           # a constructor that normalises the list it was handed, in place
+                        if isinstance(val, list):
+                            val.sort()
             ns = {"__init__": __init__}
             if c.get("falsy") == 1:          # instances that are FALSY (an empty container-like object / __bool__ False)
                 ns["__len__"] = lambda self: 0
             elif c.get("falsy") == 2:
                 ns["__bool__"] = lambda self: False
+            ns["_sorts"] = bool(c.get("sorts"))
             cls = metas[c["meta"]](f"S{ci % 2}", (), ns)
         else:
             cls = type(classes[c["parent"]])(f"S{ci % 2}", (classes[c["parent"]],), {})
@@ -77,7 +85,7 @@ class SemiHistory(Leg):
             "metaclass each, a metaclass object shared by two classes, subclasses of a semi-singleton class, custom hash functions; "
             "argument pool with distinct values of equal hash (-1 / -2, 0 / 2**61-1), keyword order permutations, nested tuples, keyword "
             "values equal across types (1 / True / 1.0: distinct keys by their JSON text), a nested dict value in two insertion orders; "
-            "2 in 5 root classes with falsy instances; "
+            "2 in 5 root classes with falsy instances, 2 in 5 whose __init__ sorts a list argument in place (the list given in both orders: different keys); "
             "keys are interned by the intended equality, so a key function that conflates or splits them shows as a disagreement; "
             "non-trivial = two classes share a metaclass object or are parent/child and both are constructed with the same key")
     quick_n = 500
@@ -96,6 +104,7 @@ class SemiHistory(Leg):
             for c in classes:
                 if c["parent"] is None:
                     c["falsy"] = rng.choice([0, 0, 0, 1, 2])
+                    c["sorts"] = rng.random() < 0.4
             ops = []
             ninst = 0
             few = rng.sample(range(len(ARGS)), 4)
@@ -103,6 +112,8 @@ class SemiHistory(Leg):
                 few = [12, 14, 15, rng.randrange(len(ARGS))]       # a=1 / a=True / a=1.0 as keyword values
             elif rng.random() < 0.2:
                 few = [16, 17, rng.randrange(len(ARGS)), rng.randrange(len(ARGS))]     # the nested dict in both orders
+            elif rng.random() < 0.25:
+                few = [18, 19, 18, rng.randrange(len(ARGS))]                            # the list argument in both orders
             for _ in range(rng.randint(4, 22)):
                 r = rng.random()
                 ci = rng.randrange(len(classes))
@@ -136,7 +147,7 @@ class SemiHistory(Leg):
         for j, op in enumerate(case["ops"]):
             try:
                 if op[0] in ("C", "CF"):
-                    a, k = ARGS[op[2]]
+                    a, k = copy.deepcopy(ARGS[op[2]])        # the caller's own fresh argument objects, every time
                     TRAP["on"] = op[0] == "CF"
                     try:
                         x = classes[op[1]](*a, **k)
